@@ -776,13 +776,18 @@ O(id='xer_decode_general.grid', props=['C03', 'C04', 'C05'], kind='native', harn
   bound='native grid under ASan/UBSan with the assertions of h_xer.c: every concatenation of at most 4 of 20 XML fragments (whitespace, comments with dash runs, tags of T and of a foreign element, attributes, text, stray brackets) x every truncation x every two-chunk split',
   timeout=1500)
 
+O(id='SEQUENCE_decode_xer.grid', props=['C03', 'C04', 'C05', 'C14'], kind='native', harness='harness/grid_seq_xer.c', entry='main',
+  functions=['SEQUENCE_decode_xer', 'SEQUENCE_free', 'xer_decode_general', 'xer_next_token', 'xer_check_tag', 'xer_skip_unknown', 'pxml_parse'], no_canary=True, defines=['VF_PARTS=4'],
+  bound='native grid under ASan/UBSan/LSan with the assertions of h_seq_xer.c: SEQUENCE { a, b OPTIONAL, c, ..., d OPTIONAL } whose members decode with the real xer_decode_general: "<T>" + every concatenation of at most 4 of 13 fragments (members in and out of order, unknown additions, whitespace, comments, stray tags) x every truncation x every two-chunk split',
+  timeout=1500)
+
 for _o in OBLIGATIONS:
     if _o.get('enforce') and _o.get('kind') in ('enforce', 'width') and _o.get('tier') == 'quick' and 'C19' not in _o['props']:
         _o['props'] = _o['props'] + ['C19']
 
 CONSTR = 'constructed codecs beyond the stub-member obligations: the container logic of SEQUENCE (BER decode, DER/OER/UPER encode, OER/UPER decode without extension additions), SET OF (BER/OER decode, DER encode), CHOICE (BER decode) and the four constraint walkers is covered for hand-laid descriptors of 1..5 stub members and inputs of at most 8..11 octets (bounded); not covered: SET (constr_SET.c codecs), CHOICE OER/UPER/DER, SET OF UPER/OER encode, SEQUENCE OER/UPER with extension additions (obligations experimental: the SAT back end runs out of memory on allocations of symbolic size), nesting of real constructed types inside each other, descriptors as the compiler generates them'
 GEN = 'everything the compiler emits as text: type descriptor tables (emit_type_DEF, emit_member_table), constraint checkers (asn1c_emit_constraint_checking_code), tag maps, selector tables'
-XERU = 'XER beyond the engine: the constructed XER decoders (SEQUENCE/SET/CHOICE/SET_OF_decode_xer), all XER encoders, the OCTET STRING entity/UTF-8 bodies, REAL/INTEGER/ENUMERATED text forms (snprintf/strtod); the engine itself (xer_decode_general, xer_next_token, xer_check_tag, pxml_parse) and the hexadecimal/binary bodies are covered by bounded obligations and a native grid only'
+XERU = 'XER beyond the engine: the constructed XER decoders other than SEQUENCE_decode_xer (which has a native grid only), all XER encoders, the OCTET STRING entity/UTF-8 bodies, REAL/INTEGER/ENUMERATED text forms (snprintf/strtod); the engine itself (xer_decode_general, xer_next_token, xer_check_tag, pxml_parse) and the hexadecimal/binary bodies are covered by bounded obligations and a native grid only'
 UNVERIFIED = {
  'C01': [CONSTR, GEN, XERU, 'uper_open_type_put / uper_open_type_get_simple: fragmentation at 16K needs inputs beyond any unwinding bound; covered only by the native grid uper_open_type.frag-grid (sizes around m*16K, m <= 5)', 'INTEGER (wide) UPER with semi-constrained ranges; NativeEnumerated (bsearch has no CBMC model); REAL text forms; time types', 'transcoding chains'],
  'C02': [CONSTR, GEN, 'tag assignment in the fixer (asn1f_fix_constr_autotag, asn1f_fetch_tags)', 'restricted-string PER alphabets (OCTET_STRING_per_put_characters)', 'NativeInteger_uper.* obligations exist but do not discharge (tier experimental)'],
